@@ -23,6 +23,7 @@ def cancel_stream(r, n, p):
 
 def gen_cases(ctx):
     r = ctx.rng
+    rot = Rot(r)
     cases = []
     for ind in KINDS:
         periods = [1, 2, 3, 5, 9, 16] + ([r.randint(17, 64)] if not ctx.thorough else r.sample(range(17, 65), 4))
@@ -40,7 +41,7 @@ def gen_cases(ctx):
                 k = nper(ind)
                 pr = (p if k >= 1 else 0, r.choice([1, p, 2 * p]) if k >= 2 else 0, r.choice([1, 3]) if k >= 3 else 0, m if ind in HAS_MULT else 0.0)
                 if ind in ("TR", "ATR", "CE", "KC") and (ind == "CE" or rep % 2 == 0):
-                    bs = bar_stream(r, n, r.choice(["walk", "segments", "gaps", "grid", "tinybars"]), p=p)
+                    bs = bar_stream(r, n, rot.pick((ind, "b"), ["walk", "segments", "gaps", "grid", "tinybars"]), p=p)
                     if rep % 3 == 2:
                         # negative price levels (spreads, futures): the same bars moved below zero; low <= high is preserved by monotone rounding
                         D = 2.0 * max(abs(v) for b in bs for v in b[:4]) + 1.0
@@ -49,7 +50,7 @@ def gen_cases(ctx):
                 elif rep % 3 == 0:
                     feeds = [("n", 0, x) for x in cancel_stream(r, n, p)]
                 else:
-                    feeds = [("n", 0, x) for x in scalar_stream(r, n, r.choice(["signed", "walk", "mixed", "flatafter", "segments", "tiny", "huge", "periodic"]), p=p)]
+                    feeds = [("n", 0, x) for x in scalar_stream(r, n, rot.pick((ind, "n"), ["signed", "walk", "mixed", "flatafter", "segments", "tiny", "huge", "periodic"]), p=p)]
                 if rep % 3 == 1:
                     feeds = sprinkle_serde(feeds, r)
                 cases.append(Case("%s_p%d_%d" % (ind, p, rep), [new_op(0, ind, pr)] + feeds, dump=(0,),
